@@ -634,7 +634,11 @@ func subsetReqs(now, then []sreq) bool {
 	return true
 }
 
-func runSim(u *uni, rn, rv string) simOut {
+func runSim(u *uni, rn, rv string) simOut { return runSimCapped(u, rn, rv, 200000) }
+
+// runSimCapped runs the port with a round bound; with a bound below the code's
+// maxRounds a "gerr" outcome may just mean "bound reached" (see simOut.rounds).
+func runSimCapped(u *uni, rn, rv string, maxRounds int) simOut {
 	su := buildSim(u)
 	root := sver{len(su.pkgs), 0}
 	for i, p := range su.pkgs {
@@ -648,7 +652,7 @@ func runSim(u *uni, rn, rv string) simOut {
 		}
 	}
 	s := &sim{u: su, root: root}
-	st, kind := s.resolve(200000)
+	st, kind := s.resolve(maxRounds)
 	out := simOut{backtracks: s.backtracks, rounds: s.rounds}
 	switch kind {
 	case "err", "panic":
